@@ -86,8 +86,8 @@ func ParseAnnounce(r Request, v6Action bool, opts ParseOptions) (*bittorrent.Ann
 	left := binary.BigEndian.Uint64(r.Packet[64:72])
 	uploaded := binary.BigEndian.Uint64(r.Packet[72:80])
 
-	eventID := int(r.Packet[83])
-	if eventID >= len(eventIDs) {
+	eventID := binary.BigEndian.Uint32(r.Packet[80:84])
+	if eventID >= uint32(len(eventIDs)) {
 		return nil, errMalformedEvent
 	}
 
